@@ -199,7 +199,7 @@ def thread_part(v, quick, seed):
     from bind import declgen
     n = 0
     with declgen.Scratch() as sc:
-        for prog in ("plain", "regex"):
+        for prog in ("plain", "regex", "bits"):
             cfg = "SPECIFICATION Spec\nCONSTANTS Prog = \"%s\" KeepHist = %s\nINVARIANT Inv_C13_Threads\nINVARIANT Inv_C13_ThreadsPlain\n%s"
             res = run_tlc("MC_Threads", cfg_text=cfg % (prog, "FALSE", ""), workers=4)
             if res.violation:
